@@ -1130,3 +1130,146 @@ func runC13_14(c *Ctx) {
 	c.Check(recorded, "ModifySocket records the new protocol", p.Pos(fn.Pos()), "s.protoFuncs = append(s.protoFuncs[:0], newProtoFunc)",
 		"ModifySocket never stores the hook's new ProtoFunc into s.protoFuncs: GetProtoFunc() keeps reporting the creation-time protocol")
 }
+
+// ---------------------------------------------------------------------------------------------------------------
+// C15.4  only the receive side writes through Message.Status()
+
+func init() {
+	register(&Rule{ID: "C15.4", Prop: "C15", Min: 6,
+		Text: "a status installed on a message is never written in place: every write through the result of Message.Status() (a store through the pointer, a field store, SetCode/SetMsg/SetCause/Clear/DecodeQuery/UnmarshalJSON/TagStack on it) lies in a protocol's Unpack (or a helper only Unpack calls) and targets that function's own message parameter - SetStatus installs shared objects (the predefined statuses, whatever a handler returned), so '*m.Status(true) = *stat' on an output message overwrites the shared 102 for the whole process",
+		Run: runC15_4})
+}
+
+var statusMutatorSet = map[string]bool{"SetCode": true, "SetMsg": true, "SetCause": true, "Clear": true, "DecodeQuery": true, "UnmarshalJSON": true, "TagStack": true}
+
+func onlyCalledFromUnpack(p *Prog, fn *ssa.Function, depth int) bool {
+	if fn.Name() == "Unpack" && fn.Signature.Recv() != nil {
+		return true
+	}
+	if depth > 3 {
+		return false
+	}
+	n := 0
+	for _, other := range p.ShippedFuncs() {
+		if other.Pkg != fn.Pkg {
+			continue
+		}
+		for _, call := range AllCalls(other) {
+			if call.Common().StaticCallee() == fn {
+				n++
+				if !onlyCalledFromUnpack(p, EnclosingTop(other), depth+1) {
+					return false
+				}
+			}
+		}
+	}
+	return n > 0
+}
+
+func runC15_4(c *Ctx) {
+	p := c.P
+	nOK := 0
+	for _, fn := range p.ShippedFuncs() {
+		k := 0
+		for _, call := range AllCalls(fn) {
+			o := CalleeObj(call)
+			if o == nil || o.Name() != "Status" || o.Pkg() == nil || o.Pkg().Path() != Root+"/socket" {
+				continue
+			}
+			v, ok := call.(ssa.Value)
+			if !ok || v.Referrers() == nil {
+				continue
+			}
+			var writes []ssa.Instruction
+			for _, r := range *v.Referrers() {
+				switch x := r.(type) {
+				case *ssa.Store:
+					if x.Addr == v {
+						writes = append(writes, r)
+					}
+				case *ssa.FieldAddr:
+					if x.Referrers() != nil {
+						for _, rr := range *x.Referrers() {
+							if st, isSt := rr.(*ssa.Store); isSt && st.Addr == ssa.Value(x) {
+								writes = append(writes, rr)
+							}
+						}
+					}
+				case ssa.CallInstruction:
+					if mo := CalleeObj(x); mo != nil && statusMutatorSet[mo.Name()] && len(x.Common().Args) > 0 && x.Common().Args[0] == v {
+						writes = append(writes, r)
+					}
+				}
+			}
+			if len(writes) == 0 {
+				continue
+			}
+			recv := Resolve(call.Common().Value)
+			if !call.Common().IsInvoke() && len(call.Common().Args) > 0 {
+				recv = Resolve(call.Common().Args[0])
+			}
+			k++
+			key := fmt.Sprintf("write through Message.Status() #%d in %s", k, FnName(fn))
+			c.fact("who-may-write")
+			top := EnclosingTop(fn)
+			if isParamOf(recv, fn) && onlyCalledFromUnpack(p, top, 0) {
+				nOK++
+				c.Hold(key, p.InstrPos(writes[0]), "decodes into the message a protocol's Unpack was handed")
+				continue
+			}
+			c.Viol(key, p.InstrPos(writes[0]), "the status object of a message is written in place outside a protocol's Unpack: the object may be shared (SetStatus installs the predefined statuses and whatever a handler returned, e.g. the 102 of a failed backend push) - after this write every later failure that reports that status shows the new code/message")
+		}
+	}
+	if nOK < 6 {
+		c.Undec("decode sites", "", fmt.Sprintf("found %d decode-into-message sites in Unpack functions, expected >= 6", nOK))
+	}
+}
+
+// ---------------------------------------------------------------------------------------------------------------
+// C08.11  the websocket server keeps the connection until a graceful close has finished
+
+func init() {
+	register(&Rule{ID: "C08.11", Prop: "C08", Min: 1,
+		Text: "a connection owner does not let go when a close merely begins: CloseNotify fires at the START of closeLocked (before the waits for running handlers), so every shipped function that blocks on <-sess.CloseNotify() and whose return releases the connection (the websocket server's per-connection handler: the websocket library closes the socket when it returns) passes Session.Close() - which queues on the session lock until the graceful close has finished - on every path from the receive to a return",
+		Run: runC08_11})
+}
+
+func runC08_11(c *Ctx) {
+	p := c.P
+	closeM := p.MethodObj(Root, "Session", "Close")
+	n := 0
+	for _, fn := range p.ShippedFuncs() {
+		Instrs(fn, func(i ssa.Instruction) {
+			u, ok := i.(*ssa.UnOp)
+			if !ok || u.Op != token.ARROW {
+				return
+			}
+			call, isCall := u.X.(*ssa.Call)
+			if !isCall {
+				return
+			}
+			if o := CalleeObj(call); o == nil || o.Name() != "CloseNotify" {
+				return
+			}
+			n++
+			okPass, exits := p.MustPassBeforeExit(i, func(j ssa.Instruction) bool {
+				cc, isC := j.(ssa.CallInstruction)
+				if !isC {
+					return false
+				}
+				o := CalleeObj(cc)
+				return o != nil && (o == closeM || (o.Name() == "Close" && o.Pkg() != nil && o.Pkg().Path() == Root))
+			}, nil)
+			c.fact("must-pass")
+			pos := p.InstrPos(i)
+			if !okPass && len(exits) > 0 {
+				pos = p.InstrPos(exits[0])
+			}
+			c.Check(okPass, "wait for the close to finish in "+FnName(fn), pos, "<-CloseNotify() is followed by Session.Close() on every path to the return",
+				FnName(fn)+" returns as soon as CloseNotify fires: the notification is sent when a close BEGINS, the caller (the websocket server) then closes the connection while closeLocked is still waiting for running handlers - their replies are lost and the callers get a connection error instead of the genuine reply")
+		})
+	}
+	if n == 0 {
+		c.Undec("CloseNotify waiters", "", "no shipped function blocks on <-CloseNotify() (the websocket server handler is expected): idiom not recognised")
+	}
+}
